@@ -276,7 +276,7 @@ static json handle(json const &cmd)
     std::vector<cvm::rvector> pos = getvecs(cmd.at("pos"));
     std::vector<cvm::rvector> sys;
     if (cmd.contains("sys")) sys = getvecs(cmd["sys"]);
-    if (cmd.contains("rand")) for (double x : cmd["rand"]) P->rand_queue.push_back(x);
+    if (cmd.contains("rand")) { P->rand_queue.clear(); for (double x : cmd["rand"]) P->rand_queue.push_back(x); }
     if (cmd.contains("dEdl")) P->alch_dEdl = cmd["dEdl"];
     if (cmd.contains("cell")) P->set_cell(cmd["cell"][0], cmd["cell"][1], cmd["cell"][2]);
     if (cmd.contains("perm")) P->smp_perm = cmd["perm"].get<std::vector<int>>();
